@@ -4,12 +4,14 @@ _TEXT_WR = ("writer part: the control of carquet's writer pipeline (page builder
             "generated write history the model's file equals the real file BYTE FOR BYTE (codecs UNCOMPRESSED, SNAPPY, LZ4, "
             "LZ4_RAW) and all call statuses agree; proved for every history: a close that returns OK has produced "
             "PAR1 ++ data ++ footer ++ len ++ PAR1, and the row groups / column chunks of the footer describe consecutive, gap-free, "
-            "non-overlapping byte ranges from offset 4 to the start of the footer with sizes that add up (C05_chunks_tile). Read-back equality (C01), three-mode agreement (C03) and "
+            "non-overlapping byte ranges from offset 4 to the start of the footer with sizes that add up (C05_chunks_tile); the data region is, chunk by chunk, a "
+            "concatenation of non-empty pages header(|body|, |stored|, crc32(stored), rows, stats) ++ stored with stored = compress(body), and each chunk's "
+            "num_values / total_compressed_size / total_uncompressed_size are the sums over its pages (C05_pages_chain). Read-back equality (C01), three-mode agreement (C03) and "
             "write-twice determinism (C05) are evaluated on the real code for every generated history.")
 PART = {
   "C05": dict(
     imports=["Carquet.Properties.C05.Writer"],
-    obligations=["Carquet.Properties.C05.C05_envelope", "Carquet.Properties.C05.C05_envelope_real", "Carquet.Properties.C05.C05_chunks_tile"],
+    obligations=["Carquet.Properties.C05.C05_envelope", "Carquet.Properties.C05.C05_envelope_real", "Carquet.Properties.C05.C05_chunks_tile", "Carquet.Properties.C05.C05_pages_chain"],
     components=["file", "c05sink"],
     fidelity={"Impl.Writer": "exact (control), byte-exact whole files through Impl.FileReal for codecs 0/1/5/7",
               "GZIP/ZSTD pages": "not modelled byte-for-byte (zlib/libzstd); statuses only"},
